@@ -19,7 +19,15 @@ import (
 // Rng is SplitMix64; every random choice of a run derives from one seed.
 type Rng struct{ s uint64 }
 
-func NewRng(seed uint64) *Rng { return &Rng{s: seed*0x9E3779B97F4A7C15 + 0x1234567} }
+func NewRng(seed uint64) *Rng {
+	// Scramble the seed first: with a plain affine start, seed s+1 would just be seed s shifted by
+	// one draw and consecutive VERIF_SEEDs would explore the same cases.
+	z := seed + 0x632BE59BD9B4E019
+	z = (z ^ (z >> 30)) * 0xBF58476D1CE4E5B9
+	z = (z ^ (z >> 27)) * 0x94D049BB133111EB
+	z = z ^ (z >> 31)
+	return &Rng{s: z*0xD1342543DE82EF95 + 0x1234567}
+}
 
 func (r *Rng) U64() uint64 {
 	r.s += 0x9E3779B97F4A7C15
